@@ -370,3 +370,44 @@ HARNESS[f'{M}:Class.mro'] = {'cases': _model_cases, 'check': _check_model,
     'bound': '120 (1500) hierarchies of <= 4 classes with members m/n defined and documented at random levels, one or two modules, against CPython type()/inspect.getdoc'}
 HARNESS[f'{M}:Class._init_mro'] = {'cases': _incons_cases, 'check': _check_incons,
     'bound': '3 inconsistent / cyclic hierarchies'}
+
+
+# ---- zope interfaces: the docstring an implementer's undocumented member takes from its interfaces follows the linearisation ----
+def _iface_cases(tier, seed):
+    # which of the four interfaces of the diamond IBoth(ILeft, IRight) over IRoot declare (and document) the member
+    for mask in range(1, 16):
+        yield {'declares': [bool(mask & (1 << k)) for k in range(4)]}
+
+
+def _check_ifaces(case):
+    """an undocumented method of a class that implements IBoth is documented by the first interface of IBoth's linearisation
+    (IBoth, ILeft, IRight, IRoot - C3, what zope computes as __iro__) that declares it"""
+    from replay import fixtures
+    from pydoctor import model
+    names = ['IBoth', 'ILeft', 'IRight', 'IRoot']
+    decl = dict(zip(names, case['declares']))
+
+    def body(n):
+        return (f'    def meth():\n        "doc from {n}"\n' if decl[n] else '    pass\n')
+    src = ('from zope.interface import Interface, implementer\n'
+           'class IRoot(Interface):\n' + body('IRoot') +
+           'class ILeft(IRoot):\n' + body('ILeft') +
+           'class IRight(IRoot):\n' + body('IRight') +
+           'class IBoth(ILeft, IRight):\n' + body('IBoth') +
+           '@implementer(IBoth)\nclass Impl:\n    def meth(self):\n        pass\n'
+           'class Sub(Impl):\n    def meth(self):\n        pass\n')
+    system = fixtures.build_system([('zi', src, False)])
+    want = next((n for n in names if decl[n]), None)
+    fails = []
+    for cls in ('zi.Impl', 'zi.Sub'):
+        o = system.allobjects[cls + '.meth']
+        doc, source = model.get_docstring(o)
+        got = None if doc is None else doc.replace('doc from ', '')
+        if got != want:
+            fails.append({'observed': f'{cls}.meth takes its docstring from {got} (declared by {[n for n in names if decl[n]]})', 'required': f'{want}: the first interface along IBoth, ILeft, IRight, IRoot',
+                          'class': 'interface-docsource'})
+    return fails or None
+
+
+HARNESS['pydoctor/extensions/zopeinterface.py:_inheritedDocsources'] = {'cases': _iface_cases, 'check': _check_ifaces,
+    'bound': 'a diamond of four interfaces, every non-empty subset of them declaring the member (15), an implementer and a subclass of it'}
